@@ -5,9 +5,11 @@ the bounds with createEmpty), _start/_stop clipped to the query bounds, value = 
 read returns for that window, empty => null (0 for count).  Implementation layer: the storage window cursor (CallNext,
 shared with C20) feeding BuildTable = *WindowTable (createNextBufferTimes + mergeValues/isInWindow),
 *WindowSelectorTable, *EmptyWindowSelectorTable (buffers of OutCap rows) and splitWindows of storage/flux.
-TLC checks TableImpl = TableDirect for every case of the domain, modulo the explicit predicate F18Shape; a second run
-WITHOUT that exemption rediscovers F18 on the model (buffer capacity 2) and the counterexample is replayed, stretched
-x500, on the real reader (buffer capacity 1000).
+TLC checks TableImpl = TableDirect (invariant TableContract) for every case of the domain with the repaired
+*EmptyWindowSelectorTable.advance (constant EWSAsFound = FALSE).  Finding F39 (the as-found advance dropped the empty windows
+after the 1000-window buffer holding the last point; found by this check, repaired in /repo) stays as a vacuity guard:
+with EWSAsFound = TRUE TLC must find the counterexample on the model (buffer capacity 2), and that case is replayed,
+stretched x500, on the real reader (buffer capacity 1000) where it must now agree with the contract.
 
 Binding: every final TLC state is a query with expected rows; queries are grouped by (series, every, offset) and
 replayed by harness/cmd/winagg on storageflux.NewReader(...).ReadWindowAggregate over a real tsdb.Store, for every field
@@ -23,7 +25,7 @@ import vlib
 AGGS = ['count', 'sum', 'min', 'max', 'first', 'last', 'mean']
 
 
-def cfg_text(maxt, everys, valpats, aggs, outcap, qstarts, qstops, timecols, inv='TableContractModuloF18'):
+def cfg_text(maxt, everys, valpats, aggs, outcap, qstarts, qstops, timecols, inv='TableContract', asfound=False):
     q = lambda xs: '{' + ', '.join('"%s"' % x for x in xs) + '}'
     n = lambda xs: '{' + ', '.join(str(x) for x in xs) + '}'
     return f'''SPECIFICATION Spec
@@ -37,6 +39,7 @@ CONSTANTS
   QStarts = {n(qstarts)}
   QStops = {n(qstops)}
   TimeCols = {q(timecols)}
+  EWSAsFound = {'TRUE' if asfound else 'FALSE'}
 INVARIANTS TypeOK CursorContract {inv}
 CHECK_DEADLOCK FALSE
 '''
@@ -113,28 +116,23 @@ def run(ctx):
         slices.append(dict(maxt=4, everys=[1, 2, 3], valpats=['up'], aggs=AGGS, outcap=3, qstarts=[0, 2], qstops=[3, 6], timecols=tcs))
         nstretch = 1500
 
-    # 1. F18 rediscovery: without the exemption TLC must find the lead on the model; it is replayed (stretched) on the real code
+    # 1. vacuity guard on the model: with *EmptyWindowSelectorTable.advance AS FOUND (EWSAsFound = TRUE, finding F39, repaired in
+    #    /repo) TLC must find the counterexample to TableContract; the same case, stretched x500, is then replayed on the real
+    #    (repaired) reader as an ordinary case: it must now agree with the contract.
     lead = dict(maxt=1, everys=[1, 2], valpats=['zig'], aggs=['first', 'min'], outcap=2, qstarts=[0], qstops=[5, 6], timecols=['none'])
-    rl = ctx.tlc('WindowAgg', cfg_text(inv='TableContract', **lead), timeout=600, workers=4)
+    rl = ctx.tlc('WindowAgg', cfg_text(inv='TableContract', asfound=True, **lead), timeout=600, workers=4)
     if rl.timed_out:
-        raise vlib.Inconclusive('TLC timed out on the F18 lead configuration')
-    lead_case = None
-    if rl.violated == 'TableContract' and rl.trace:
-        last = tlaval.plain(rl.trace[-1][1])
-        lead_case = {'mode': 'table', 'pts': last['c']['pts'], 'queries': [to_query(last['c'], last['texp'])], 'stretch': 500}
-    elif not rl.ok:
-        raise vlib.Inconclusive('unexpected TLC outcome on the F18 lead configuration: ' + rl.stdout[-1500:])
-    ctx.extra_cov['model_lead_F18_found_by_tlc'] = lead_case is not None
-    if lead_case is not None:
-        res, lines = ctx.replay(binary, [lead_case], timeout=600, procs=1)
-        ctx.absorb(res, lines, sample=0)
-        rep = (not res[0].get('ok')) and 'create_empty_selector_drops_windows_after_last_data_buffer' in (res[0].get('patterns') or [])
-        ctx.extra_cov['model_lead_F18_reproduced_on_code'] = rep
-        if res[0].get('ok'):
-            raise vlib.Inconclusive('TLC counterexample to TableContract (F18: createEmpty selector table ends with the buffer in which '
-                                    'the cursor ran dry) does not reproduce on this tree: if *EmptyWindowSelectorTable.advance was '
-                                    'repaired, update EWSAdvance in spec/WindowAgg.tla; otherwise the spec is wrong')
-        ctx.samples.append(lead_case)
+        raise vlib.Inconclusive('TLC timed out on the as-found (F39) lead configuration')
+    if rl.violated != 'TableContract' or not rl.trace:
+        raise vlib.Inconclusive('vacuity guard: TLC did not find the as-found createEmpty selector table counterexample (F39) to '
+                                'TableContract on the model: ' + rl.stdout[-1500:])
+    last = tlaval.plain(rl.trace[-1][1])
+    lead_case = {'mode': 'table', 'pts': last['c']['pts'], 'queries': [to_query(last['c'], last['texp'])], 'stretch': 500}
+    ctx.extra_cov['model_lead_F39_found_by_tlc_on_as_found_model'] = True
+    res, lines = ctx.replay(binary, [lead_case], timeout=600, procs=1)
+    ctx.absorb(res, lines, sample=0)
+    ctx.extra_cov['F39_lead_case_agrees_on_code'] = bool(res[0].get('ok'))
+    ctx.samples.append(lead_case)
 
     # 2. model checking + replay of every final state (quick: one seeded field type per query; thorough: every defined type)
     args = {'types': 'one' if tier == 'quick' else 'all'}
@@ -199,10 +197,10 @@ META = {
             'createEmpty buffers, splitWindows) over the storage window cursor equals the direct definition (windows clipped to the '
             'bounds, aggregate of the filter read\'s rows, null/0 for empty windows); every query is replayed on the real reader over '
             'a real tsdb.Store for all field types, plus a x500 stretched concretisation crossing the 1000-row buffers; the model '
-            'counterexample F18 is rediscovered by TLC and reproduced on the code in every run.',
+            'as-found defect F39 (repaired) is kept as a model-level vacuity guard and its case replayed on the code in every run.',
     'design_ref': '5.12',
     'note': 'Trusted: TLC, the driver\'s concretisation (times base+unit*t, stretch of interior windows, affine values), extraction of '
-            'rows from flux.Table. Known finding F18 (createEmpty selector table drops the empty windows after the buffer holding the last point).',
+            'rows from flux.Table. Finding F39 (createEmpty selector table dropped the empty windows after the buffer holding the last point) is repaired in /repo.',
     'technique': 'TLA+ spec (WindowAgg.tla) + TLC exhaustive + replay of every TLC query on the real Flux storage reader',
     'quick_s': 150, 'thorough_s': 1500,
 }
